@@ -20,7 +20,7 @@ RULE = ('Metamorphic, E1 (Hypothesis): an array/frame A of any of the 7 kinds (l
         'Non-trivial: at least one inert row inserted next to at least one non-inert row. distinct = distinct cases.')
 ASSUMPTIONS = ['equality of floating-point results is exact: both sides run the same kernels on the same element values']
 BUDGET = {'quick': {'shards': 16, 'examples': 1600, 'min_evaluations': 800},
-          'thorough': {'shards': 16, 'examples': 48000, 'min_evaluations': 20000}}
+          'thorough': {'shards': 16, 'examples': 16000, 'min_evaluations': 8000}}
 
 
 def _eqnan(a, b):
